@@ -76,7 +76,8 @@ def _tk(text, nan=0, gap=0):
 SCRIPT_ALPHA = [_tk("d5"), _tk("d3"), _tk("t2"), _tk("o3"), _tk("z"), _tk("h"), _tk("and"), _tk("pt"), _tk("lk"),
                 _tk("w"), _tk(","), _tk("."), _tk(" "), _tk("-"),
                 _tk("d5", nan=1), _tk("w", nan=1), _tk("d5", gap=1), _tk("d3", gap=1), _tk("w", gap=1),
-                _tk("pt", gap=1), _tk("and", gap=1), _tk("o3", gap=1), _tk("z", gap=1), _tk(" . ")]
+                _tk("pt", gap=1), _tk("and", gap=1), _tk("o3", gap=1), _tk("z", gap=1), _tk(" . "),
+                _tk("cj"), _tk("cj", gap=1), _tk(" ", nan=1), _tk("-", nan=1)]
 
 
 def render_tokens(specs):
@@ -250,7 +251,7 @@ def s_scan(lang, tier, seed, out, prefix="", phrases=None):
         specs = []
         for w in ws:
             if rng.chance(1, 5):
-                specs.append(_tk(rng.choice([" ", ",", ".", "-", ";", " . "])))
+                specs.append(_tk(rng.choice([" ", ",", ".", "-", ";", " . "]), nan=1 if rng.chance(1, 10) else 0, gap=1 if rng.chance(1, 12) else 0))
             text = recase(rng, w)
             specs.append((text, text.lower(), 1 if rng.chance(1, 12) else 0, 1 if rng.chance(1, 8) else 0))
         out.write("scan\t%s\t%s\t%s\n" % (code, thr_bits(rng.choice(THRS)), render_tokens(specs)))
